@@ -147,6 +147,26 @@ def np_ns(fu, fp, x, rho, nu):
     return adv + gp / rho - nu * lap
 
 
+def _het_x0(t, x, u, params):
+    """a parameter varying with the first space coordinate: nu(x) = nu * (1.5 + sin x_0)"""
+    import jax.numpy as jnp
+
+    return params.eq_params["nu"] * (1.5 + jnp.sin(x[0]))
+
+
+def _het_x0_statio(x, u, params):
+    """(the signature of a heterogeneity function follows the equation type: no time for a stationary one)"""
+    import jax.numpy as jnp
+
+    return params.eq_params["nu"] * (1.5 + jnp.sin(x[0]))
+
+
+def _het_r(t, x, u, params):
+    import jax.numpy as jnp
+
+    return params.eq_params["r"] * (1.5 + jnp.sin(x[0]))
+
+
 def run_separable(case, rec):
     """the built-in equations on separable networks: every grid value vs the documented expression"""
     import itertools
@@ -280,9 +300,17 @@ def run_case(case, rec):
                     if call is None:
                         call = jax.jit(lambda dl, nn_, eq_, t, x, u=u: dl.evaluate(t, x, u, Params(nn_params=nn_, eq_params=eq_)))
                     dl = jinns.loss.BurgerEquation(Tmax=Tmax)
+                    het = fam == "rand" and k % 3 == 1
+                    if het:
+                        # the viscosity declared heterogeneous: its role is played by nu(x) at the point
+                        dl = jinns.loss.BurgerEquation(Tmax=Tmax, eq_params_heterogeneity={"nu": _het_x0})
+                        rec.count("residuals_with_a_heterogeneous_parameter")
+                    nu_base = nu
                     for _ in range(2):
                         z = rng.uniform(0.1, 1.2, 2)
-                        got = guard.call(call, dl, nn, {"nu": J(nu)}, J(z[:1]), J(z[1:]))
+                        got = guard.call(call, dl, nn, {"nu": J(nu_base)}, J(z[:1]), J(z[1:]))
+                        if het:
+                            nu = nu_base * (1.5 + np.sin(z[1]))
                         if fam == "rand":
                             v, g, h = f.val(z)[0], f.grad(z)[0], f.hess(z)[0]
                             terms = {"u_t": g[0], "adv": Tmax * v * g[1], "diff": -Tmax * nu * h[1, 1]}
@@ -305,13 +333,18 @@ def run_case(case, rec):
                     eqp = {"D": J(reg["D"]), "r": J(reg["r"]), "g": J(reg["g"])}
                     if fam == "rand":
                         f = fields.TrigField(1000 * case["seed"] + k, D, 1)
+                        het = k % 3 == 1
+                        if het:
+                            dl = jinns.loss.FisherKPP(Tmax=Tmax, eq_params_heterogeneity={"r": _het_r})
+                            rec.count("residuals_with_a_heterogeneous_parameter")
                         for _ in range(2):
                             z = rng.uniform(-0.5, 1.5, D)
                             got = guard.call(call, dl, f.leaves(), eqp, J(z[:1]), J(z[1:]))
                             v, g, h = f.val(z)[0], f.grad(z)[0], f.hess(z)[0]
                             lap = sum(h[i, i] for i in range(1, D))
+                            r_eff = reg["r"] * (1.5 + np.sin(z[1])) if het else reg["r"]
                             terms = {"u_t": g[0], "diff": -Tmax * reg["D"] * lap,
-                                     "growth": -Tmax * v * reg["r"], "comp": Tmax * reg["g"] * v * v}
+                                     "growth": -Tmax * v * r_eff, "comp": Tmax * reg["g"] * v * v}
                             dominant(rec, eqn, terms)
                             compare(got, sum(terms.values()), max(abs(t) for t in terms.values()),
                                     (eqn, d, k, tuple(sorted(reg.items())), Tmax, tuple(z)), Tmax=Tmax, reg=reg, z=z)
@@ -487,6 +520,12 @@ def run_case(case, rec):
                     rho, nu = float(rng.uniform(0.5, 2.0)), reg.get("visc", 1.0)
                     pd = ParamsDict(nn_params={ku: fu.leaves(), kp: fp.leaves()},
                                     eq_params={"rho": J(rho), "nu": J(nu)})
+                    if eqn == "ns" and k % 3 == 1:
+                        # the viscosity declared heterogeneous (a stationary equation): nu(x) at the point
+                        dl = jinns.loss.NavierStokes2DStatio(u_key=ku, p_key=kp, eq_params_heterogeneity={"nu": _het_x0_statio})
+                        rec.count("residuals_with_a_heterogeneous_parameter")
+                        rec.count("stationary_residuals_with_a_heterogeneous_parameter")
+                        nu = nu * (1.5 + np.sin(x[0]))
                     got = guard.call(lambda: dl.evaluate(J(x), {ku: uu, kp: pp}, pd))
                     v, g, h = fu.val(x), fu.grad(x), fu.hess(x)
                     if eqn == "mass":
